@@ -2633,6 +2633,25 @@ fn main() {
             println!("rejected={}", rejected);
             println!("first_rejected={}", first);
         }
+        // generic_battery [section] : differential workloads, crash and fault sweeps against a sorted-map model (fall-back confirmation)
+        "generic_battery" => {
+            let t0 = std::time::Instant::now();
+            if a.len() > 1 && a[1] == "workload" {
+                println!("workload={:?} seconds={}", rdbv::battery::workload(num(a[2]), num(a[3]) as usize, num(a[4]), num(a[5]) as usize, a[6] == "1", num(a[7]) as usize), t0.elapsed().as_secs_f32());
+                std::process::exit(0);
+            }
+            if a.len() > 1 && a[1] == "fault" {
+                println!("fault={:?} seconds={}", rdbv::battery::fault_run(num(a[2]), num(a[3]) as usize, a[4] == "1", a[5] == "1"), t0.elapsed().as_secs_f32());
+                std::process::exit(0);
+            }
+            let fails = rdbv::battery::run();
+            for (i, (tags, what)) in fails.iter().enumerate() {
+                println!("fail{}={}|{}", i, tags, what.replace('=', ":"));
+            }
+            println!("failures={}", fails.len());
+            println!("seconds={}", t0.elapsed().as_secs());
+            std::process::exit(0);
+        }
         // cache_ids : eight threads draw 50000 block-cache ids each from the default block cache; ids must be unique
         "cache_ids" => {
             let o = raindb::DbOptions::with_memory_env();
